@@ -235,52 +235,156 @@ static unsigned pm1_ref_distance(unsigned cls, unsigned pos, unsigned *cur)
 /* byte values: a prefix code chosen by the 5-bit stream header selects one of six rank classes a..f, then
  * rank = base + <bits>-bit value; the classes tile 0..255 */
 static const PmaRefClass pm1_ref_rank_class[6] = { { 0, 4 }, { 16, 4 }, { 32, 5 }, { 64, 6 }, { 128, 6 }, { 192, 6 } };
-typedef struct { unsigned char code, len, cls; } Pm1RefLeaf;
-typedef struct { unsigned char nleaves; const char *shape; Pm1RefLeaf leaf[6]; } Pm1RefTree;
-static const Pm1RefTree pm1_ref_tree[32] = {
 /* generated by validate/gen_trees.py from the S-expression comments in lib/pm1_decoder.c */
-	/*  0 ((((a b) c) d) (e f))        */ { 6, "((((a b) c) d) (e f))", { {0x0, 4, 0}, {0x1, 4, 1}, {0x1, 3, 2}, {0x1, 2, 3}, {0x2, 2, 4}, {0x3, 2, 5} } },
-	/*  1 (((a b) (c f)) (d e))        */ { 6, "(((a b) (c f)) (d e))", { {0x0, 3, 0}, {0x1, 3, 1}, {0x2, 3, 2}, {0x3, 3, 5}, {0x2, 2, 3}, {0x3, 2, 4} } },
-	/*  2 (((a b) c) (d (e f)))        */ { 6, "(((a b) c) (d (e f)))", { {0x0, 3, 0}, {0x1, 3, 1}, {0x1, 2, 2}, {0x2, 2, 3}, {0x6, 3, 4}, {0x7, 3, 5} } },
-	/*  3 ((a (b c)) (d (e f)))        */ { 6, "((a (b c)) (d (e f)))", { {0x0, 2, 0}, {0x2, 3, 1}, {0x3, 3, 2}, {0x2, 2, 3}, {0x6, 3, 4}, {0x7, 3, 5} } },
-	/*  4 ((a (b d)) (c (e f)))        */ { 6, "((a (b d)) (c (e f)))", { {0x0, 2, 0}, {0x2, 3, 1}, {0x3, 3, 3}, {0x2, 2, 2}, {0x6, 3, 4}, {0x7, 3, 5} } },
-	/*  5 ((a (b (e f))) (c d))        */ { 6, "((a (b (e f))) (c d))", { {0x0, 2, 0}, {0x2, 3, 1}, {0x6, 4, 4}, {0x7, 4, 5}, {0x2, 2, 2}, {0x3, 2, 3} } },
-	/*  6 ((a b) ((c d) (e f)))        */ { 6, "((a b) ((c d) (e f)))", { {0x0, 2, 0}, {0x1, 2, 1}, {0x4, 3, 2}, {0x5, 3, 3}, {0x6, 3, 4}, {0x7, 3, 5} } },
-	/*  7 ((a b) ((c (e f)) d))        */ { 6, "((a b) ((c (e f)) d))", { {0x0, 2, 0}, {0x1, 2, 1}, {0x4, 3, 2}, {0xa, 4, 4}, {0xb, 4, 5}, {0x3, 2, 3} } },
-	/*  8 ((a b) (c (d (e f))))        */ { 6, "((a b) (c (d (e f))))", { {0x0, 2, 0}, {0x1, 2, 1}, {0x2, 2, 2}, {0x6, 3, 3}, {0xe, 4, 4}, {0xf, 4, 5} } },
-	/*  9 (a (((b f) c) (d e)))        */ { 6, "(a (((b f) c) (d e)))", { {0x0, 1, 0}, {0x8, 4, 1}, {0x9, 4, 5}, {0x5, 3, 2}, {0x6, 3, 3}, {0x7, 3, 4} } },
-	/* 10 (a (((b (e f)) c) d))        */ { 6, "(a (((b (e f)) c) d))", { {0x0, 1, 0}, {0x8, 4, 1}, {0x12, 5, 4}, {0x13, 5, 5}, {0x5, 3, 2}, {0x3, 2, 3} } },
-	/* 11 (a (((b c) d) (e f)))        */ { 6, "(a (((b c) d) (e f)))", { {0x0, 1, 0}, {0x8, 4, 1}, {0x9, 4, 2}, {0x5, 3, 3}, {0x6, 3, 4}, {0x7, 3, 5} } },
-	/* 12 (a ((b (c f)) (d e)))        */ { 6, "(a ((b (c f)) (d e)))", { {0x0, 1, 0}, {0x4, 3, 1}, {0xa, 4, 2}, {0xb, 4, 5}, {0x6, 3, 3}, {0x7, 3, 4} } },
-	/* 13 (a ((b c) (d (e f))))        */ { 6, "(a ((b c) (d (e f))))", { {0x0, 1, 0}, {0x4, 3, 1}, {0x5, 3, 2}, {0x6, 3, 3}, {0xe, 4, 4}, {0xf, 4, 5} } },
-	/* 14 (a ((b (d (e f))) c))        */ { 6, "(a ((b (d (e f))) c))", { {0x0, 1, 0}, {0x4, 3, 1}, {0xa, 4, 3}, {0x16, 5, 4}, {0x17, 5, 5}, {0x3, 2, 2} } },
-	/* 15 (a (b ((c d) (e f))))        */ { 6, "(a (b ((c d) (e f))))", { {0x0, 1, 0}, {0x2, 2, 1}, {0xc, 4, 2}, {0xd, 4, 3}, {0xe, 4, 4}, {0xf, 4, 5} } },
-	/* 16 (a (b (c (d (e f)))))        */ { 6, "(a (b (c (d (e f)))))", { {0x0, 1, 0}, {0x2, 2, 1}, {0x6, 3, 2}, {0xe, 4, 3}, {0x1e, 5, 4}, {0x1f, 5, 5} } },
-	/* 17 (((d e) c) (d e))            */ { 5, "(((d e) c) (d e))", { {0x0, 3, 3}, {0x1, 3, 4}, {0x1, 2, 2}, {0x2, 2, 3}, {0x3, 2, 4} } },
-	/* 18 ((a (b e)) (c d))            */ { 5, "((a (b e)) (c d))", { {0x0, 2, 0}, {0x2, 3, 1}, {0x3, 3, 4}, {0x2, 2, 2}, {0x3, 2, 3} } },
-	/* 19 ((a b) (c (d e)))            */ { 5, "((a b) (c (d e)))", { {0x0, 2, 0}, {0x1, 2, 1}, {0x2, 2, 2}, {0x6, 3, 3}, {0x7, 3, 4} } },
-	/* 20 (a (((b e) c) d))            */ { 5, "(a (((b e) c) d))", { {0x0, 1, 0}, {0x8, 4, 1}, {0x9, 4, 4}, {0x5, 3, 2}, {0x3, 2, 3} } },
-	/* 21 (a ((b c) (d e)))            */ { 5, "(a ((b c) (d e)))", { {0x0, 1, 0}, {0x4, 3, 1}, {0x5, 3, 2}, {0x6, 3, 3}, {0x7, 3, 4} } },
-	/* 22 (a ((b (d e)) c))            */ { 5, "(a ((b (d e)) c))", { {0x0, 1, 0}, {0x4, 3, 1}, {0xa, 4, 3}, {0xb, 4, 4}, {0x3, 2, 2} } },
-	/* 23 (a (b (c (d e))))            */ { 5, "(a (b (c (d e))))", { {0x0, 1, 0}, {0x2, 2, 1}, {0x6, 3, 2}, {0xe, 4, 3}, {0xf, 4, 4} } },
-	/* 24 (((a b) c) d)                */ { 4, "(((a b) c) d)", { {0x0, 3, 0}, {0x1, 3, 1}, {0x1, 2, 2}, {0x1, 1, 3} } },
-	/* 25 ((a (b d)) c)                */ { 4, "((a (b d)) c)", { {0x0, 2, 0}, {0x2, 3, 1}, {0x3, 3, 3}, {0x1, 1, 2} } },
-	/* 26 ((a b) (c d))                */ { 4, "((a b) (c d))", { {0x0, 2, 0}, {0x1, 2, 1}, {0x2, 2, 2}, {0x3, 2, 3} } },
-	/* 27 (a ((b d) c))                */ { 4, "(a ((b d) c))", { {0x0, 1, 0}, {0x4, 3, 1}, {0x5, 3, 3}, {0x3, 2, 2} } },
-	/* 28 (a (b (c d)))                */ { 4, "(a (b (c d)))", { {0x0, 1, 0}, {0x2, 2, 1}, {0x6, 3, 2}, {0x7, 3, 3} } },
-	/* 29 (a (b c))                    */ { 3, "(a (b c))", { {0x0, 1, 0}, {0x2, 2, 1}, {0x3, 2, 2} } },
-	/* 30 (a b)                        */ { 2, "(a b)", { {0x0, 1, 0}, {0x1, 1, 1} } },
-	/* 31 no tree: class a, no bits    */ { 1, "a", { {0x0, 0, 0} } },
+/* header k: leaf i (i < nleaves[k]) is the codeword code[6k+i] of len[6k+i] bits for rank class cls[6k+i];
+ * header 31 has no code: class a, no bits.  Flat scalar arrays: CBMC's array theory cannot take arrays in structs. */
+static const char *const pm1_ref_tree_shape[32] = {
+	/*  0 */ "((((a b) c) d) (e f))",
+	/*  1 */ "(((a b) (c f)) (d e))",
+	/*  2 */ "(((a b) c) (d (e f)))",
+	/*  3 */ "((a (b c)) (d (e f)))",
+	/*  4 */ "((a (b d)) (c (e f)))",
+	/*  5 */ "((a (b (e f))) (c d))",
+	/*  6 */ "((a b) ((c d) (e f)))",
+	/*  7 */ "((a b) ((c (e f)) d))",
+	/*  8 */ "((a b) (c (d (e f))))",
+	/*  9 */ "(a (((b f) c) (d e)))",
+	/* 10 */ "(a (((b (e f)) c) d))",
+	/* 11 */ "(a (((b c) d) (e f)))",
+	/* 12 */ "(a ((b (c f)) (d e)))",
+	/* 13 */ "(a ((b c) (d (e f))))",
+	/* 14 */ "(a ((b (d (e f))) c))",
+	/* 15 */ "(a (b ((c d) (e f))))",
+	/* 16 */ "(a (b (c (d (e f)))))",
+	/* 17 */ "(((d e) c) (d e))",
+	/* 18 */ "((a (b e)) (c d))",
+	/* 19 */ "((a b) (c (d e)))",
+	/* 20 */ "(a (((b e) c) d))",
+	/* 21 */ "(a ((b c) (d e)))",
+	/* 22 */ "(a ((b (d e)) c))",
+	/* 23 */ "(a (b (c (d e))))",
+	/* 24 */ "(((a b) c) d)",
+	/* 25 */ "((a (b d)) c)",
+	/* 26 */ "((a b) (c d))",
+	/* 27 */ "(a ((b d) c))",
+	/* 28 */ "(a (b (c d)))",
+	/* 29 */ "(a (b c))",
+	/* 30 */ "(a b)",
+	/* 31 */ "a",
 };
+static const unsigned char pm1_ref_tree_nleaves[32] = { 6, 6, 6, 6, 6, 6, 6, 6, 6, 6, 6, 6, 6, 6, 6, 6, 6, 5, 5, 5, 5, 5, 5, 5, 4, 4, 4, 4, 4, 3, 2, 1 };
+static const unsigned char pm1_ref_leaf_code[32 * 6] = {
+	/*  0 ((((a b) c) d) (e f))        */ 0x00, 0x01, 0x01, 0x01, 0x02, 0x03,
+	/*  1 (((a b) (c f)) (d e))        */ 0x00, 0x01, 0x02, 0x03, 0x02, 0x03,
+	/*  2 (((a b) c) (d (e f)))        */ 0x00, 0x01, 0x01, 0x02, 0x06, 0x07,
+	/*  3 ((a (b c)) (d (e f)))        */ 0x00, 0x02, 0x03, 0x02, 0x06, 0x07,
+	/*  4 ((a (b d)) (c (e f)))        */ 0x00, 0x02, 0x03, 0x02, 0x06, 0x07,
+	/*  5 ((a (b (e f))) (c d))        */ 0x00, 0x02, 0x06, 0x07, 0x02, 0x03,
+	/*  6 ((a b) ((c d) (e f)))        */ 0x00, 0x01, 0x04, 0x05, 0x06, 0x07,
+	/*  7 ((a b) ((c (e f)) d))        */ 0x00, 0x01, 0x04, 0x0a, 0x0b, 0x03,
+	/*  8 ((a b) (c (d (e f))))        */ 0x00, 0x01, 0x02, 0x06, 0x0e, 0x0f,
+	/*  9 (a (((b f) c) (d e)))        */ 0x00, 0x08, 0x09, 0x05, 0x06, 0x07,
+	/* 10 (a (((b (e f)) c) d))        */ 0x00, 0x08, 0x12, 0x13, 0x05, 0x03,
+	/* 11 (a (((b c) d) (e f)))        */ 0x00, 0x08, 0x09, 0x05, 0x06, 0x07,
+	/* 12 (a ((b (c f)) (d e)))        */ 0x00, 0x04, 0x0a, 0x0b, 0x06, 0x07,
+	/* 13 (a ((b c) (d (e f))))        */ 0x00, 0x04, 0x05, 0x06, 0x0e, 0x0f,
+	/* 14 (a ((b (d (e f))) c))        */ 0x00, 0x04, 0x0a, 0x16, 0x17, 0x03,
+	/* 15 (a (b ((c d) (e f))))        */ 0x00, 0x02, 0x0c, 0x0d, 0x0e, 0x0f,
+	/* 16 (a (b (c (d (e f)))))        */ 0x00, 0x02, 0x06, 0x0e, 0x1e, 0x1f,
+	/* 17 (((d e) c) (d e))            */ 0x00, 0x01, 0x01, 0x02, 0x03, 0x00,
+	/* 18 ((a (b e)) (c d))            */ 0x00, 0x02, 0x03, 0x02, 0x03, 0x00,
+	/* 19 ((a b) (c (d e)))            */ 0x00, 0x01, 0x02, 0x06, 0x07, 0x00,
+	/* 20 (a (((b e) c) d))            */ 0x00, 0x08, 0x09, 0x05, 0x03, 0x00,
+	/* 21 (a ((b c) (d e)))            */ 0x00, 0x04, 0x05, 0x06, 0x07, 0x00,
+	/* 22 (a ((b (d e)) c))            */ 0x00, 0x04, 0x0a, 0x0b, 0x03, 0x00,
+	/* 23 (a (b (c (d e))))            */ 0x00, 0x02, 0x06, 0x0e, 0x0f, 0x00,
+	/* 24 (((a b) c) d)                */ 0x00, 0x01, 0x01, 0x01, 0x00, 0x00,
+	/* 25 ((a (b d)) c)                */ 0x00, 0x02, 0x03, 0x01, 0x00, 0x00,
+	/* 26 ((a b) (c d))                */ 0x00, 0x01, 0x02, 0x03, 0x00, 0x00,
+	/* 27 (a ((b d) c))                */ 0x00, 0x04, 0x05, 0x03, 0x00, 0x00,
+	/* 28 (a (b (c d)))                */ 0x00, 0x02, 0x06, 0x07, 0x00, 0x00,
+	/* 29 (a (b c))                    */ 0x00, 0x02, 0x03, 0x00, 0x00, 0x00,
+	/* 30 (a b)                        */ 0x00, 0x01, 0x00, 0x00, 0x00, 0x00,
+	/* 31 a                            */ 0x00, 0x00, 0x00, 0x00, 0x00, 0x00,
+};
+static const unsigned char pm1_ref_leaf_len[32 * 6] = {
+	/*  0 ((((a b) c) d) (e f))        */ 4, 4, 3, 2, 2, 2,
+	/*  1 (((a b) (c f)) (d e))        */ 3, 3, 3, 3, 2, 2,
+	/*  2 (((a b) c) (d (e f)))        */ 3, 3, 2, 2, 3, 3,
+	/*  3 ((a (b c)) (d (e f)))        */ 2, 3, 3, 2, 3, 3,
+	/*  4 ((a (b d)) (c (e f)))        */ 2, 3, 3, 2, 3, 3,
+	/*  5 ((a (b (e f))) (c d))        */ 2, 3, 4, 4, 2, 2,
+	/*  6 ((a b) ((c d) (e f)))        */ 2, 2, 3, 3, 3, 3,
+	/*  7 ((a b) ((c (e f)) d))        */ 2, 2, 3, 4, 4, 2,
+	/*  8 ((a b) (c (d (e f))))        */ 2, 2, 2, 3, 4, 4,
+	/*  9 (a (((b f) c) (d e)))        */ 1, 4, 4, 3, 3, 3,
+	/* 10 (a (((b (e f)) c) d))        */ 1, 4, 5, 5, 3, 2,
+	/* 11 (a (((b c) d) (e f)))        */ 1, 4, 4, 3, 3, 3,
+	/* 12 (a ((b (c f)) (d e)))        */ 1, 3, 4, 4, 3, 3,
+	/* 13 (a ((b c) (d (e f))))        */ 1, 3, 3, 3, 4, 4,
+	/* 14 (a ((b (d (e f))) c))        */ 1, 3, 4, 5, 5, 2,
+	/* 15 (a (b ((c d) (e f))))        */ 1, 2, 4, 4, 4, 4,
+	/* 16 (a (b (c (d (e f)))))        */ 1, 2, 3, 4, 5, 5,
+	/* 17 (((d e) c) (d e))            */ 3, 3, 2, 2, 2, 0,
+	/* 18 ((a (b e)) (c d))            */ 2, 3, 3, 2, 2, 0,
+	/* 19 ((a b) (c (d e)))            */ 2, 2, 2, 3, 3, 0,
+	/* 20 (a (((b e) c) d))            */ 1, 4, 4, 3, 2, 0,
+	/* 21 (a ((b c) (d e)))            */ 1, 3, 3, 3, 3, 0,
+	/* 22 (a ((b (d e)) c))            */ 1, 3, 4, 4, 2, 0,
+	/* 23 (a (b (c (d e))))            */ 1, 2, 3, 4, 4, 0,
+	/* 24 (((a b) c) d)                */ 3, 3, 2, 1, 0, 0,
+	/* 25 ((a (b d)) c)                */ 2, 3, 3, 1, 0, 0,
+	/* 26 ((a b) (c d))                */ 2, 2, 2, 2, 0, 0,
+	/* 27 (a ((b d) c))                */ 1, 3, 3, 2, 0, 0,
+	/* 28 (a (b (c d)))                */ 1, 2, 3, 3, 0, 0,
+	/* 29 (a (b c))                    */ 1, 2, 2, 0, 0, 0,
+	/* 30 (a b)                        */ 1, 1, 0, 0, 0, 0,
+	/* 31 a                            */ 0, 0, 0, 0, 0, 0,
+};
+static const unsigned char pm1_ref_leaf_cls[32 * 6] = {
+	/*  0 ((((a b) c) d) (e f))        */ 0, 1, 2, 3, 4, 5,
+	/*  1 (((a b) (c f)) (d e))        */ 0, 1, 2, 5, 3, 4,
+	/*  2 (((a b) c) (d (e f)))        */ 0, 1, 2, 3, 4, 5,
+	/*  3 ((a (b c)) (d (e f)))        */ 0, 1, 2, 3, 4, 5,
+	/*  4 ((a (b d)) (c (e f)))        */ 0, 1, 3, 2, 4, 5,
+	/*  5 ((a (b (e f))) (c d))        */ 0, 1, 4, 5, 2, 3,
+	/*  6 ((a b) ((c d) (e f)))        */ 0, 1, 2, 3, 4, 5,
+	/*  7 ((a b) ((c (e f)) d))        */ 0, 1, 2, 4, 5, 3,
+	/*  8 ((a b) (c (d (e f))))        */ 0, 1, 2, 3, 4, 5,
+	/*  9 (a (((b f) c) (d e)))        */ 0, 1, 5, 2, 3, 4,
+	/* 10 (a (((b (e f)) c) d))        */ 0, 1, 4, 5, 2, 3,
+	/* 11 (a (((b c) d) (e f)))        */ 0, 1, 2, 3, 4, 5,
+	/* 12 (a ((b (c f)) (d e)))        */ 0, 1, 2, 5, 3, 4,
+	/* 13 (a ((b c) (d (e f))))        */ 0, 1, 2, 3, 4, 5,
+	/* 14 (a ((b (d (e f))) c))        */ 0, 1, 3, 4, 5, 2,
+	/* 15 (a (b ((c d) (e f))))        */ 0, 1, 2, 3, 4, 5,
+	/* 16 (a (b (c (d (e f)))))        */ 0, 1, 2, 3, 4, 5,
+	/* 17 (((d e) c) (d e))            */ 3, 4, 2, 3, 4, 0,
+	/* 18 ((a (b e)) (c d))            */ 0, 1, 4, 2, 3, 0,
+	/* 19 ((a b) (c (d e)))            */ 0, 1, 2, 3, 4, 0,
+	/* 20 (a (((b e) c) d))            */ 0, 1, 4, 2, 3, 0,
+	/* 21 (a ((b c) (d e)))            */ 0, 1, 2, 3, 4, 0,
+	/* 22 (a ((b (d e)) c))            */ 0, 1, 3, 4, 2, 0,
+	/* 23 (a (b (c (d e))))            */ 0, 1, 2, 3, 4, 0,
+	/* 24 (((a b) c) d)                */ 0, 1, 2, 3, 0, 0,
+	/* 25 ((a (b d)) c)                */ 0, 1, 3, 2, 0, 0,
+	/* 26 ((a b) (c d))                */ 0, 1, 2, 3, 0, 0,
+	/* 27 (a ((b d) c))                */ 0, 1, 3, 2, 0, 0,
+	/* 28 (a (b (c d)))                */ 0, 1, 2, 3, 0, 0,
+	/* 29 (a (b c))                    */ 0, 1, 2, 0, 0, 0,
+	/* 30 (a b)                        */ 0, 1, 0, 0, 0, 0,
+	/* 31 a                            */ 0, 0, 0, 0, 0, 0,
+};
+/* end generated */
 /* rank class (0..5 = a..f) selected by the next bits under start header `header` */
 static unsigned pm1_ref_class(unsigned header, unsigned *cur)
 {
 	unsigned i;
 	for (i = 0; i < 6; ++i) {
-		if (i >= pm1_ref_tree[header].nleaves) break;
-		if (PMA_BITS(*cur, pm1_ref_tree[header].leaf[i].len) != pm1_ref_tree[header].leaf[i].code) continue;
-		*cur += pm1_ref_tree[header].leaf[i].len;
-		return pm1_ref_tree[header].leaf[i].cls;
+		if (i >= pm1_ref_tree_nleaves[header]) break;
+		if (PMA_BITS(*cur, pm1_ref_leaf_len[6 * header + i]) != pm1_ref_leaf_code[6 * header + i]) continue;
+		*cur += pm1_ref_leaf_len[6 * header + i];
+		return pm1_ref_leaf_cls[6 * header + i];
 	}
 	return 0;   /* unreachable: every tree is a complete prefix code (validator) */
 }
